@@ -766,10 +766,18 @@ func checkAztecModeMessage(c *Ctx, r *Report) {
 
 // S-AZCUT: how correctBits cuts the layer bits into codewords, and what it hands the Reed-Solomon decoder
 func checkAztecCut(c *Ctx, r *Report) {
-	r.Rule("S-AZCUT", "correctBits, folded for each of the 36 symbol sizes up to its Reed-Solomon call (layer count and data-codeword count from the detector result, readCode replaced by a tag of its start position): the layer bits are cut into floor(bits / size) codewords that are right-aligned - codeword i starts at bit (bits mod size) + i * size, every one of them is read, none twice - the decoder is built over the field of the size, and it is given exactly these codewords with all of the check codewords (numCodewords - numDataCodewords)", 36)
+	checkAztecCutRule(c, r, "S-AZCUT", true)
+}
+
+// checkAztecCutRule runs the fold under the given rule name (S-FIELD falls back on it when correctBits does not have
+// the if-ladder shape its own matcher knows: the fold decides size and field for every layer count whatever the shape).
+func checkAztecCutRule(c *Ctx, r *Report, ruleName string, declare bool) {
+	if declare {
+		r.Rule(ruleName, "correctBits, folded for each of the 36 symbol sizes up to its Reed-Solomon call (layer count and data-codeword count from the detector result, readCode replaced by a tag of its start position): the layer bits are cut into floor(bits / size) codewords that are right-aligned - codeword i starts at bit (bits mod size) + i * size, every one of them is read, none twice - the decoder is built over the field of the size, and it is given exactly these codewords with all of the check codewords (numCodewords - numDataCodewords)", 36)
+	}
 	fd, p := c.funcDeclOf("aztec/decoder", "Decoder.correctBits")
 	if fd == nil {
-		r.AnchorLost("S-AZCUT", "aztec/decoder.Decoder.correctBits", "method not found")
+		r.AnchorLost(ruleName, "aztec/decoder.Decoder.correctBits", "method not found")
 		return
 	}
 	type stop struct{}
@@ -877,7 +885,11 @@ func checkAztecCut(c *Ctx, r *Report) {
 			}()
 			pos := c.pos(fd.Pos())
 			if err != nil {
-				r.Undecided("S-AZCUT", key, pos, err.Error())
+				if strings.Contains(err.Error(), "readCode reads") {
+					r.Fail(ruleName, key, pos, "violation", err.Error())
+				} else {
+					r.Undecided(ruleName, key, pos, err.Error())
+				}
 				continue
 			}
 			bad := ""
@@ -899,7 +911,7 @@ func checkAztecCut(c *Ctx, r *Report) {
 					bad = fmt.Sprintf("codeword %d is read from bit %d, right-aligned codewords of %d bits in %d layer bits put it at bit %d", i, gotWords[i]-1, size, bitsN, want)
 				}
 			}
-			r.Check(bad == "", "S-AZCUT", key, pos, bad)
+			r.Check(bad == "", ruleName, key, pos, bad)
 		}
 	}
 }
